@@ -422,6 +422,8 @@ def tr_test(fn, node, env, kt, kf):
         if t == NONE:
             return k_none(env)
         if t.kind == "opt":
+            if getattr(t.arg, "may_be_none", False):      # [srclabels] d.get(k) of a dict that may hold None as a value
+                _bad("`is None` on an Optional whose value may itself be None (%r)" % t, node)
             v = fn.fresh(p)
             return "match %s with\n| Some %s =>\n%s\n| None =>\n%s\nend" % (
                 g, v, k_some(narrow(env, p, v, t.arg)), k_none(narrow(env, p, "None", NONE)))
@@ -432,6 +434,10 @@ def tr_test(fn, node, env, kt, kf):
                 v = fn.fresh(p)
                 arms.append("| %s %s =>\n%s" % (c, v, k_some(narrow(env, p, v, at))))
             return "match %s with\n%s\nend" % (g, "\n".join(arms))
+        # [srclabels] a dynamically typed value (Ty attribute may_be_none: e.g. a label value, whose "other object" case
+        # includes Python's None) is not known to be non-None
+        if getattr(t, "may_be_none", False):
+            _bad("`is None` on a value of the dynamic type %r" % t, node)
         return k_some(env)          # a value of a non-optional type is not None
     if isinstance(node, ast.Call) and path_of(node.func) == "isinstance" and len(node.args) == 2 and not node.keywords:
         p = path_of(node.args[0])
